@@ -86,9 +86,13 @@ class SeaOracle:
             self.cum["spin"][:, N] = Sd[:, :N].sum(axis=1)
             self.cum["omega"][:, N] = w[:, :N, N:].sum(axis=(1, 2))
             self.cum["hplus"][:, N] = (w[:, :N, N:] * Esum[:, :N, N:, None]).sum(axis=(1, 2))
-        self.scale = dict(count=float(nw), spin=float(np.abs(Sd).sum(axis=1).mean(axis=0).max()),
-                          omega=float(np.abs(w).sum(axis=(1, 2)).mean(axis=0).max()),
-                          hplus=float(np.abs(w * Esum[..., None]).sum(axis=(1, 2)).mean(axis=0).max()))
+        # natural scales (sum of absolute contributions) with floors taken from the inputs: a Berry curvature is
+        # measured in units of the squared lattice constant, a spin in units of the SS amplitude
+        a0sq = float(np.mean(np.linalg.norm(system.real_lattice, axis=1)) ** 2)
+        self.scale = dict(count=float(nw), spin=float(np.abs(Sd).sum(axis=1).mean(axis=0).max()) + 0.1,
+                          omega=float(np.abs(w).sum(axis=(1, 2)).mean(axis=0).max()) + a0sq,
+                          hplus=float(np.abs(w * Esum[..., None]).sum(axis=(1, 2)).mean(axis=0).max())
+                          + a0sq * float(np.abs(E).max()))
 
     def gap_tie(self, thresh, kramers):
         gaps = self.E[:, 1:] - self.E[:, :-1]
@@ -177,6 +181,8 @@ def case(ctx, rng, idx, state):
     dim = 3 if rng.random() < 0.6 else 2
     system = build_system(rng, variant, dim)
     nw = system.num_wann
+    if len(system.rvec.iRvec) < 3:
+        raise harness.Skip("model without hopping (flat bands)")
     if dim == 3:
         NK = tuple(int(x) for x in rng.integers(2, 6, size=3))
     else:
@@ -229,6 +235,9 @@ def case(ctx, rng, idx, state):
             calcs[ka] = StaticCalculator(Formula=F, fder=n, Efermi=Ef, kwargs_formula=kf, **common)
             calcs[kb] = StaticCalculator(Formula=F, fder=0, Efermi=ext[n], kwargs_formula=kf, **common)
             fd_jobs.append((n, name, ka, kb))
+            if f"scale_{name}" not in calcs:  # natural scale of the formula: its sea values across the band range
+                calcs[f"scale_{name}"] = StaticCalculator(Formula=F, fder=0, Efermi=np.linspace(lo - 0.05, hi + 0.05, 9), kwargs_formula=kf,
+                                                          **common)
     calcs["dos"] = calc.static.DOS(Efermi=Ef, **common)
     calcs["cumdos_ext1"] = calc.static.CumDOS(Efermi=Ef1, **common)
     sel = np.sort(rng.choice(nw, size=int(rng.integers(1, nw + 1)), replace=False))
@@ -288,7 +297,8 @@ def case(ctx, rng, idx, state):
     for n, name, ka, kb in fd_jobs:
         B = R[kb]
         exp = central_diff(B, n, dE)
-        ctx.close(f"fder{n}!=central_difference_of_sea", R[ka], exp, rtol=1e-9, scale=np.abs(B).max() / dE ** n,
+        ctx.close(f"fder{n}!=central_difference_of_sea", R[ka], exp, rtol=1e-9,
+                  scale=max(np.abs(B).max(), np.abs(R[f"scale_{name}"]).max()) / dE ** n,
                   what=f"StaticCalculator(Formula={name}, fder={n}) vs difference quotient of fder=0 on the extended grid",
                   witness=dict(wit, formula=name))
         ctx.count(f"fd_order{n}")
@@ -348,7 +358,7 @@ def case(ctx, rng, idx, state):
 if __name__ == "__main__":
     harness.main(
         PROP, "exploration", case, setup_fn=setup,
-        tiers=dict(quick=dict(cases=40, shards=8, time=110), thorough=dict(cases=1200, shards=16, time=1100)),
+        tiers=dict(quick=dict(cases=40, shards=8, time=400), thorough=dict(cases=1200, shards=16, time=1100)),
         rule="random Hermitian models with generic SS (2-5 bands, or 1-3 bands doubled to exact two-fold degeneracy), 2D and 3D, "
              "grids up to 5^3 / 9^2 split at random into NKdiv x NKFFT, degen_thresh in {1e-4,1e-3,.03,.3,.8}, degen_Kramers, "
              "uniform Fermi grids (1-22 points, spacing 2e-3..1, covering the bands / inside them / single point); "
